@@ -29,7 +29,7 @@ def plan(tier):
         "required_obligations": ["tlc_behaviours_replayed", "ascending", "descending", "many_equal_starts",
                                  "large_tree", "from_iter", "query_unindexed_refused",
                                  "insert_after_index_then_refused", "reindexed",
-                                 "interior_levels_above_leaf_level", "query_absent_refid", "empty_tree_indexed_and_queried",
+                                 "interior_levels_above_leaf_level", "query_absent_refid", "empty_tree_indexed_and_queried", "tree_copied_mid_history", "map_copied_mid_history",
                                  "array_tree_half_million_entries", "avl_half_million_entries"],
         "rule": "AVL: transition cover of the TLC state graph of the AVL machine (one behaviour per transition "
                 "from every distinct tree shape with <=5 (quick) / <=6 (thorough) intervals over 4 starts x 2 widths) "
